@@ -111,6 +111,10 @@ struct chld_s {
 	double delay;
 	int status;
 	int delivered;
+	/* job control: the executor is stopped at t_stop and continued
+	 * t_cont later (SIGSTOP/SIGCONT by an operator); -1 = never */
+	double t_stop, t_cont;
+	int jc;			/* 0 nothing reported, 1 stop, 2 continuation */
 };
 
 /* the plan */
@@ -121,6 +125,7 @@ static struct {
 	double late_p, late_max, exact_p, jit_max;
 	/* time a posix_spawn() takes: with probability COST_P up to COST_MAX s */
 	double cost_p, cost_max;
+	double jobctl_p;	/* share of executors stopped and continued */
 	struct usr_s usr[MAXUSR];
 	int nusr;
 	struct life_s life[MAXLIFE];
@@ -973,7 +978,20 @@ __wrap_posix_spawn(pid_t *pid, const char *path,
 			.t_exit = vnow() + cur_spawn.life,
 			.delay = cur_spawn.delay,
 			.status = cur_spawn.status,
+			.t_stop = -1., .t_cont = -1.,
 		};
+		if (P.jobctl_p > 0. && cur_spawn.life > 0.01 &&
+		    u01(hash3(P.seed, (uint64_t)cur_spawn.pid, 0x710)) < P.jobctl_p) {
+			/* stopped somewhere in its first half, continued
+			 * before it ends (being stopped does not prolong
+			 * the scripted life) */
+			struct chld_s *c = chlds + nchlds - 1;
+			double u = u01(hash3(P.seed, (uint64_t)cur_spawn.pid, 0x711));
+			double v = u01(hash3(P.seed, (uint64_t)cur_spawn.pid, 0x712));
+
+			c->t_stop = c->t_spawn + (0.05 + 0.45 * u) * cur_spawn.life;
+			c->t_cont = c->t_stop + (0.05 + 0.4 * v) * cur_spawn.life;
+		}
 	}
 	*pid = cur_spawn.pid;
 	/* spawning takes time */
@@ -1219,6 +1237,15 @@ host_next_wake(double now, double due, int ioready)
 			w = te + 0.0001;
 			wake_kind = "sigchld";
 		}
+		/* so does one that is stopped or continued */
+		if (!chlds[i].delivered && chlds[i].t_stop >= 0.) {
+			double tj = chlds[i].jc == 0 ? chlds[i].t_stop
+				: chlds[i].jc == 1 ? chlds[i].t_cont : -1.;
+			if (tj > now && tj < w) {
+				w = tj + 0.0001;
+				wake_kind = "sigchld";
+			}
+		}
 	}
 	if (stall_next > 0.) {
 		w += stall_next;
@@ -1290,6 +1317,30 @@ host_reap(double w, int *pid, int *st)
 {
 	int b = -1;
 
+	/* stops and continuations first: they precede the exit */
+	for (int i = 0; i < nchlds; i++) {
+		struct chld_s *c = chlds + i;
+
+		if (c->delivered || c->t_stop < 0. || c->jc >= 2) {
+			continue;
+		}
+		if (c->jc == 0 && c->t_stop <= w) {
+			c->jc = 1;
+			*pid = c->pid;
+			*st = (SIGSTOP << 8) | 0x7f;
+		} else if (c->jc == 1 && c->t_cont <= w) {
+			c->jc = 2;
+			*pid = c->pid;
+			*st = 0xffff;
+		} else {
+			continue;
+		}
+		h_begin("jobctl", w);
+		h_int("pid", *pid);
+		h_int("status", *st);
+		h_end();
+		return 1;
+	}
 	for (int i = 0; i < nchlds; i++) {
 		if (chlds[i].delivered ||
 		    chlds[i].t_exit + chlds[i].delay > w) {
@@ -1632,6 +1683,8 @@ load_plan(const char *fn)
 			snprintf(P.rundir, sizeof(P.rundir), "%s", tok[1]);
 		} else if (!strcmp(tok[0], "daemonuid") && nt >= 2) {
 			P.daemon_uid = atoi(tok[1]);
+		} else if (!strcmp(tok[0], "jobctl") && nt >= 2) {
+			P.jobctl_p = atof(tok[1]);
 		} else if (!strcmp(tok[0], "spawncost") && nt >= 3) {
 			P.cost_p = atof(tok[1]);
 			P.cost_max = atof(tok[2]);
